@@ -180,14 +180,15 @@ func printable(b []byte) string {
 // the buffer contract or of progress is not a violation of, say, match
 // maximality.
 var driverSigOwners = map[string]string{
-	"reset-error":    "C13 C15 C16",
-	"shrink-range":   "C15 C16",
-	"write-range":    "C15 C16",
-	"write-error":    "C15 C16",
-	"readfrom-range": "C01 C15 C16",
-	"readfrom-error": "C15 C16",
-	"parse-loop":     "C03 C14 C16",
-	"no-progress":    "C03 C14 C16",
+	"reset-error":             "C13 C15 C16",
+	"reset-oversize-accepted": "C15 C16",
+	"shrink-range":            "C15 C16",
+	"write-range":             "C15 C16",
+	"write-error":             "C15 C16",
+	"readfrom-range":          "C01 C15 C16",
+	"readfrom-error":          "C15 C16",
+	"parse-loop":              "C03 C14 C16",
+	"no-progress":             "C03 C14 C16",
 }
 
 func (h *Hist) Fail(sig, format string, a ...any) {
@@ -525,6 +526,9 @@ outer:
 				add(10) // Reset(input[:1]) with 7 spare bytes: the stream starts again
 				add(11) // Reset(input[:min(B,len)]) without spare capacity: the stream starts again
 				add(12) // Reset(input[:1]) with 16 spare bytes: more than BufferSize+7 for small buffers, less than a 12-byte input
+				if B < 1<<16 {
+					add(13) // Reset with BufferSize+1 bytes: must be refused and leave the parser as it was
+				}
 			}
 			op := alts[c.Choose(na)]
 			switch {
@@ -593,6 +597,39 @@ outer:
 				h.mix(uint64(n64) ^ 0x7800)
 				if orc.Op != nil {
 					orc.Op(h, "readfrom")
+				}
+			case op == 13:
+				big := make([]byte, B+1)
+				h.inLib = true
+				err := p.Reset(big)
+				h.inLib = false
+				track()
+				h.logOp(opReset, len(big), -1)
+				h.record(opReset, len(big), err, nil)
+				if err == nil {
+					h.Fail("reset-oversize-accepted", "Reset with %d bytes was accepted, BufferSize is %d", len(big), B)
+					h.St.Pruned++
+					break outer
+				}
+				h.mix(0x13)
+				// the stream is unchanged: a refused Reset is not a step, go on with a plain Write
+				n, err := func() (int, error) {
+					h.inLib = true
+					defer func() { h.inLib = false }()
+					return p.Write(rem)
+				}()
+				track()
+				h.logOp(opWrite, len(rem), n)
+				h.record(opWrite, n, err, nil)
+				if n < 0 || n > len(rem) {
+					h.Fail("write-range", "Write(%d bytes) returned n=%d", len(rem), n)
+					h.St.Pruned++
+					break outer
+				}
+				h.Stream = append(h.Stream, rem[:n]...)
+				fed += n
+				if n > 0 {
+					progress = true
 				}
 			case op >= 10:
 				q := in[:1]
